@@ -959,8 +959,9 @@ def run(ctx):
                 'of MC_FillS (calls on the input object / the previous result with a shared method-list object; every object '
                 're-read after every call) - and for the PROCESS SESSIONS of MC_FillP, replayed in one process in the order of '
                 'the history: call ; the caller derives a new input from the RESULT (reindex onto a longer index / back onto the '
-                'full calendar, lag, withdraw an observation in place, slice, copy, x * 1, values into a new object) or builds '
-                'ANOTHER input of the same shape (every mask, other values) or takes the same input again ; call with the same '
+                'full calendar, lag, withdraw / write an observation in place, slice, copy, x * 1, values into a new object) or builds '
+                'ANOTHER input of the same shape (every mask, other values) or takes the same input again - as it is or after '
+                'editing it IN PLACE - ; call (nona also in its function form) with the same '
                 'methods (same / other limit) or another method list; outcome after every step == what TLC printed (law = Fillna '
                 'of the contents of the object passed at that moment), both inputs and the passed object re-read after every step; '
                 'stratified by (object of the later call, same / other methods).  Cases with several admitted outcomes and the C2S runs (random vectors / frames '
@@ -987,7 +988,7 @@ def run(ctx):
         s2c(ctx, rng.sample(hists, 1200), 'histories', session_chunk)
         # process sessions: call ; the caller derives a new input from the result / builds another input of the same shape ; call
         psess = canonical(ctx.mc('MC_FillP', 'MC_FillP_quick.cfg').emitted)
-        chosen, ctx.extra['s2c_enumerated_process_sessions'] = pick_psessions(rng, psess, {'y_same': 500, 'y_other': 300, 'der_same': 800, 'der_other': 600, '*': 200})
+        chosen, ctx.extra['s2c_enumerated_process_sessions'] = pick_psessions(rng, psess, {'y_same': 500, 'y_other': 300, 'der_same': 800, 'der_other': 500, 'edit_same': 300, 'edit_other': 200, '*': 150})
         s2c(ctx, chosen, 'process_sessions', psession_chunk)
         c2s(ctx, 400, 500, 300)
     else:
@@ -1008,7 +1009,7 @@ def run(ctx):
         s2c(ctx, pick(hists, 20000), 'histories', session_chunk)
         ctx.mc('MC_FillP', 'MC_FillP_memo.cfg', must_fail='PRefines')       # a memo carried by the data object breaks the call after a derivation
         psess = canonical(ctx.mc('MC_FillP', 'MC_FillP_thorough.cfg').emitted)
-        chosen, ctx.extra['s2c_enumerated_process_sessions'] = pick_psessions(rng, psess, {'y_same': 12000, 'y_other': 6000, 'der_same': 14000, 'der_other': 8000, '*': 3000})
+        chosen, ctx.extra['s2c_enumerated_process_sessions'] = pick_psessions(rng, psess, {'y_same': 12000, 'y_other': 6000, 'der_same': 14000, 'der_other': 8000, 'edit_same': 6000, 'edit_other': 4000, '*': 3000})
         s2c(ctx, chosen, 'process_sessions', psession_chunk)
         sims = ctx.generate('MC_FillP', 'MC_FillP_sim.cfg', simulate=3000, depth=40, seed=ctx.seed + 1, workers=1)      # longer sessions: 4 calls, <= 2 derivations in a row
         sims = [json.loads(c) for c in sorted({json.dumps(c, sort_keys=True) for c in sims})]
@@ -1026,14 +1027,16 @@ def run(ctx):
         'process sessions: MC/S2C x = vectors <= 3 (thorough 4) and 2-column frames of 1 (thorough 2) rows, y = every frame of the same '
         'shape (vectors <= 3 / thorough 4, 1 x 2), 8 (thorough 11) method lists, limits {None, 1}; two calls with at most one derivation in '
         'between (thorough: TLC-simulated sessions of 4 calls, <= 2 derivations in a row, limits <= 2, frames <= 3 x 2); a derivation is '
-        'always passed on to the next call; an observation is withdrawn in place only from an object that is the caller\'s own (the empty '
-        'method list hands the input object back: documented, not poked); "back onto the full calendar" needs labels and is not done to arrays; '
+        'always passed on to the next call, an in-place edit of x is followed by a call on x; named deviation SameObject: a result whose '
+        'contents equal the input may BE the input object (empty method list; ffill_na / ffill_0 on a Series without observations), so the '
+        'working object is edited in place only when its contents differ from the input it was made from or after a copying derivation; '
+        '"back onto the full calendar" needs labels and is not done to arrays; '
         'a read-only array result (pandas hands out read-only .values) is copied before it is edited',
         'IncreasingIndex: fnna, ffill_na, ffill_0 and nona(edge) find their boundary BY LABEL; they are exercised on strictly increasing '
         'indexes only (date, integer - also starting at the falsy 0 -, float, string, default RangeIndex); ffill, bfill, constants and nona, '
         'which the statement defines by position alone, also on repeated, constant, decreasing and shuffled labels.  nona(edge=+-1) is '
         'exercised on date indexes only (df_slice reads integer bounds as positions)',
-        'named deviations accepted by the specification: ConstLimit (a constant under a limit fills all or the first `limit` NaNs per column), '
+        'named deviations accepted by the specification: SameObject (above), ConstLimit (a constant under a limit fills all or the first `limit` NaNs per column), '
         'NoValidObservation (ffill_na/ffill_0 on a column without any valid cell: unchanged or all tail value), '
         'ArrayIgnoresEdge (nona(array, edge) ignores edge; edge is not part of the statement), InfEitherSign (nona(value=+-inf) may take '
         'the rows that are entirely infinite of either sign)',
